@@ -190,7 +190,8 @@ def file_list_contract(ck, mod, pairs=((1, 1000), (1, 500), (2, 1000), (3, 1000)
             hk = [s0 <= k, k <= s1, floor_is(mk_, k * d * 1000, n), m0 <= mk_, mk_ <= m1, fk == qk * F, fk <= mk_, mk_ < fk + F]
             ck.add([Obl("filelist.holds_the_file_of_every_queried_sample", func, 0, oc.pc + hk, z3.Or([f_ == fk for f_ in ft]) if ft else z3.BoolVal(False), kind="post", meta=meta)])
             if single:
-                ck.struct("filelist.one_sample_one_file", len(lst) == 1, "%s: %d files for a one-sample query" % (tag, len(lst)), {"attr": tag})
+                # decided by the solver, not by evaluation: a path kept only because its feasibility check timed out must not raise an alarm
+                ck.add([Obl("filelist.one_sample_one_file", func, 0, oc.pc, z3.BoolVal(len(lst) == 1), kind="post", meta=dict(meta, files=len(lst)))])
         ck.add(pysym.obligations_of(outs, func))
     # monotonicity of ms(.) used above
     a_, b_, ma, mb = z3.Ints("a b ma mb")
